@@ -301,8 +301,7 @@ def check_optional_deref(ctx, m):
 
 def run(ctx):
     src = ctx.src
-    ai = EngineAI(src)
-    ai.run_all()
+    ai = EngineAI.shared(src)
     fm = FactoryModel(src)
     m = ai.m
     for rid, text in (
